@@ -336,9 +336,20 @@ def run(chk):
     outcomes = {}
     # quick tier: the debug BINARY only where a guard decides (the crate itself was already run in debug by lib-magnitude)
     edge = set(m for bs in boundary.values() for m in bs) | set(m for m in mags if m <= 2 or any(abs(m - k) <= 1 for k in (MB, F.USIZE_MAX, F.U32_MAX)))
+    # both builds in ONE pool, slowest first (the 20 s probes overlap with everything else)
+    slow_set = set(slow_probes)
+    plan = []
     for prof in ("release", "debug"):
-        cases_p = bin_cases if (prof == "release" or not quick) else [c for c in bin_cases if c["param"] in edge or (c["family"], c["param"]) in slow_probes]
-        res = R.run_many(bins[prof], cases_p, root, workers=14, tag="m" + prof[0])
+        cases_p = bin_cases if (prof == "release" or not quick) else [c for c in bin_cases if c["param"] in edge or (c["family"], c["param"]) in slow_set]
+        if quick and prof == "release":
+            cases_p = [c for c in cases_p if c["param"] in edge or (c["family"], c["param"]) in slow_set
+                       or c["family"].startswith(("bankcombo_", "neartop_")) or (c["param"] & (c["param"] - 1)) == 0]
+        plan += [(prof, dict(c, binary=bins[prof])) for c in cases_p]
+    plan.sort(key=lambda pc: 0 if (pc[1]["family"], pc[1]["param"]) in slow_set else 1)
+    allres = R.run_many(None, [c for _, c in plan], root, workers=14, tag="m")
+    for prof in ("release", "debug"):
+        cases_p = [c for (p_, c) in plan if p_ == prof]
+        res = [r for (p_, _), r in zip(plan, allres) if p_ == prof]
         for c, r in zip(cases_p, res):
             fam, m = c["family"], c["param"]
             mo = modmap.get((fam, m))
